@@ -45,21 +45,23 @@ def clone_mods(mods):
     out = []
     for m in mods:
         c = {k: m[k] for k in ("name", "default", "defs", "trees", "text") if k in m}
-        if m.get("wide"):
-            c["wide"] = True
+        for k in ("wide", "family"):
+            if m.get(k):
+                c[k] = True
         out.append(c)
     return out
 
 
-def build_variants(mods, optsets, jobs=3, prefix="opt"):
+def build_variants(mods, optsets, jobs=3, prefix="opt", select=None):
     """build clones of mods under every option set; returns [(opts, clones)] in the order of optsets.
-    The compiler copy and the skeleton archive are built once, before the threads start."""
+    The compiler copy and the skeleton archive are built once, before the threads start.
+    select(module, opts) -> bool: build only these modules under that option set."""
     build_asn1c()
     build_skeleton_lib(True)
     res = [None] * len(optsets)
 
     def one(i):
-        cl = clone_mods(mods)
+        cl = clone_mods([m for m in mods if select is None or select(m, optsets[i])])
         build_modules(cl, tag="%s%d" % (prefix, i + 1), opts=optsets[i])
         return cl
 
